@@ -1,4 +1,4 @@
 SPECIFICATION Spec
-CONSTANTS Kind = "cipher" MaxBits = 200 MaxBytes = 67 BigBits = {255, 256, 257, 511, 512, 513, 1023, 4095, 4096} BigBytes = {63, 64, 65, 128} GridBits = {1, 40, 67} Reps = 1 LongOctets = {4097, 4112} SeqGroups = 3
+CONSTANTS Kind = "cipher" MaxBits = 200 MaxBytes = 67 BigBits = {255, 256, 257, 511, 512, 513, 1023, 4095, 4096} BigBytes = {63, 64, 65, 128} GridBits = {1, 40, 67} Reps = 1 LongOctets = {4097, 8193, 65537} SeqGroups = 3
 INVARIANTS InDomain Emit
 CHECK_DEADLOCK FALSE
